@@ -181,6 +181,18 @@ def run(facts, rep, ctx):
                     if term[0] == "call" and term[1] == "std::path::Path::exists":
                         if not any(x[0] == "param" and x[1] == 2 for x in walk(term)):
                             rep.violation(R4, b.name, "exists-arg", "existence is tested on %s, not on the requested directory" % fmt(term)[:80], "%s:%s" % (b.file, b.line))
+        # who may enumerate: the entries under a directory are found by the glob walk over <dir>/<pattern>; a listing
+        # built from read_dir sees one level and bare names only, so patterns that contain a separator cannot match
+        if name == "list":
+            rd_calls = [(bb, t) for bb, t in b.calls() if (callee_names(t)[1] or callee_names(t)[0] or "") in ("std::fs::read_dir",) or
+                        (callee_names(t)[1] or "").endswith("walkdir::WalkDir::new")]
+            for cb in facts.closures_of(b):
+                rd_calls += [(bb, t) for bb, t in cb.calls() if (callee_names(t)[1] or "") == "std::fs::read_dir"]
+            globs = [(bb, t) for bb, t in b.calls() if (callee_names(t)[1] or "").startswith("glob::glob")]
+            if rd_calls:
+                rep.violation(R5, b.name, "enumerates-with-read_dir", "FileSystemLayer::list enumerates a directory with read_dir on some path: entries below the first level, and patterns with a path separator, are not matched as the glob walk matches them", "%s:%s" % (b.file, rd_calls[0][1]["line"]))
+            elif globs:
+                rep.ok(R5, {"fn": b.name, "enumeration": "glob::glob only"})
         # pattern
         okp = [p for p in hit if p.end == "ret" and is_err_term(p.ret) is False]
         patt = set()
